@@ -3,4 +3,4 @@ set -e
 cd "$(dirname "$0")"
 export GOFLAGS=-mod=mod GOPROXY=off GOSUMDB=off GOTOOLCHAIN=local
 mkdir -p bin
-(cd driver && go build -trimpath -o ../bin/godsim .)
+(cd driver && go build -o ../bin/godsim .)
